@@ -55,7 +55,13 @@ func NewRawManager(opts ...ManagerOption) *RawManager {
 }
 
 func (m *RawManager) closeNodeConns() {
-	for _, node := range m.nodes {
+	// the node pool is sorted and extended under the manager lock by goroutines that create
+	// configurations concurrently with Close; iterate over a copy taken under that lock
+	m.mu.Lock()
+	nodes := make([]*RawNode, len(m.nodes))
+	copy(nodes, m.nodes)
+	m.mu.Unlock()
+	for _, node := range nodes {
 		err := node.close()
 		if err != nil && m.logger != nil {
 			m.logger.Printf("error closing: %v", err)
